@@ -11,14 +11,16 @@ def runs(tier, seed, replay):
         # request sequences threaded through the extracted model (same history) + truth-table oracle
         {"args": ["c16ops", "--seed", str(seed), "--tier", tier, "--count", str(n1)]},
         # model-free: every request also sent to a freshly loaded instance and to a clone;
-        # two models paged alternately in one process (cursor ownership, finding K2)
+        # two models paged alternately in one process (cursor ownership; was finding K2, repaired by F21):
+        # kind C16X, each model must page through its own cycle, judged by its truth table
         {"args": ["c16h", "--seed", str(seed), "--tier", tier, "--count", str(n2)]},
     ]
 
 
 CONFIG = {
     "runs": runs,
-    "status": "scratch-state part proved FULL, cursor part REFUTED (K2). Props/C16.v, all closed under the global context. "
+    "status": "FULL: scratch-state part and, since the repair F21 (repo_patches/F21-cursor-per-model.patch, was finding K2), the cursor part. "
+              "Props/C16.v, all closed under the global context. "
               "Model of one long-lived instance: req = RCount A | RSat A | RCore A | RTable | RSample A k chs | REnum A k | RMarked A, "
               "run_req d (scratch, cursor) q = ((scratch', cursor'), answer) built from the model functions execute_query (all four "
               "strategies), sat, core_dead_with_assumptions, card_of_each_feature, uniform_random_sampling (recorded choice stream = the "
@@ -35,17 +37,28 @@ CONFIG = {
               "cursor depend on the history only through the cursor the earlier enumeration requests left; no other request kind "
               "touches the cursor); C16_marked_reads_marks_only. Ingredients: C02 execute_query_correct, C04 table, C05 core, "
               "C07 scratch independence, and the new Proofs/ExecTemps.v (what execute_query leaves in the temps after preprocess). "
-              "REFUTED: C16_cursor_shared_refuted - the cursor map is keyed by the (sorted) assumption list only and is process-global: "
-              "with C1 = x1<->x2 and C2 = x1,x2 free (both check_wf, n = 2, A = [], page size 1) one page of C1 moves the shared cursor "
-              "to 1 and C2's first page is then slice 1 2 of its enumeration, not slice 0 1 as in a process that only loaded C2 "
-              "(vm_compute witness with the model's enumerate). Not in the model: atomic sets, save, t-wise (no model function). "
+              "CURSOR: C16_cursor_per_model - a process with two loaded models d1, d2 (any two) is two instance states (scratch, cursor) side by "
+              "side, proc_run sends every request of an interleaved history to the model it names; for EVERY history and every starting state the "
+              "final state of either model (scratch and cursor) and all its answers, enumeration pages included, are those of running its own "
+              "requests alone (run_reqs_ans) - true by construction of the model, which always described one cursor per model; F21 made /repo the "
+              "code it describes (the cursor is a field of Ddnnf, empty for every loaded model, shared by clone(), emptied by rebuild()/swap()). "
+              "C16_cursor_shared_refuted_v0 - the code BEFORE the repair: proc_run_v0 threads ONE cursor map through the requests of both models "
+              "(the process-global static keyed by the assumption set only); with C1 = x1<->x2 and C2 = x1,x2 free (both check_wf, n = 2, A = [], "
+              "page size 1) one page of C1 and then the first page of C2: C2 does not answer what it answers alone, with the cursor per model it "
+              "does (= slice 0 1 of its enumeration); ex_c16_two_models: six alternating requests evaluated in both processes. "
+              "Not in the model: atomic sets, save, t-wise (no model function). "
               "Correspondence (c16ops): random interleavings of count (lengths 0,1,2,3,5,21,25; consistent and contradictory), sat, "
               "incremental sat, core, per-feature table and marked-nodes requests on ONE long-lived implementation instance; the extracted "
               "model is threaded through the same history, every answer is compared, counts/tables/core are judged by the truth-table "
               "oracle, and the Clean flag (hook H6: all markers false, md empty) is checked after every request on both sides",
     "assumptions": [
         "assumption literals of count/core requests within 1..n; sampling is compared on the recorded choice stream (C07), not on the Pcg32 seed",
-        "the cursor part is stated and refuted at model level only (two models in one process are not exercised by c16ops)",
+        "the cursor part: theorem about the two-model process of the model; tie to /repo = kind C16X of run c16h (every 5th generated model is paged "
+        "alternately with its predecessor, same assumptions - none or one literal -, 10 requests of 1..3 configurations: the pages of EITHER model "
+        "must satisfy the C06 cycle rule against ITS truth table; n > 10: against the same requests on a further fresh instance) and C17's modes "
+        "clones / independent; signature enumerate:cursor-shared-across-models is a detector without a finding line; against a /repo without "
+        "repo_patches/F21-cursor-per-model.patch this check reports VIOLATION (that signature; also history:* because fresh instances no longer "
+        "get a cursor reset)",
         "atomic sets, save/serialisation and t-wise sampling are outside the request model",
     ],
 }
